@@ -283,7 +283,14 @@ class SGen:
 def gen_c20(seed, n):
     r = random.Random(seed)
     g = SGen(r)
-    g.connect(r.choice(IDS[:3]), clean=False)
+    if r.random() < 0.25:     # a session that expires while offline, before a restart
+        c = r.choice(IDS)
+        g.connect(c, v=5, clean=False, sei=30)
+        g.subscribe(c, f=r.choice(TOPICS), qos=1)
+        g.drop(c)
+        g.ops.append(_op("tick", kind="clients", dt=40))
+    else:
+        g.connect(r.choice(IDS[:3]), clean=False)
     restarts = 0
     while len(g.ops) < n:
         x = r.random()
@@ -362,7 +369,31 @@ def gen_c21(seed, n):
             return g.connect(c, v=4, clean=kw.pop("clean", not persistent), **kw)
         return g.connect(c, v=5, clean=kw.pop("clean", r.random() < 0.2), sei=300 if persistent else r.choice([0, -1]), **kw)
 
-    conn(r.choice(["a", "a:b"]))
+    pre = r.random()
+    if pre < 0.25:        # an unacknowledged delivery to a persistent session, then a resuming takeover
+        c = r.choice(["a", "b:c"])
+        g.connect(c, v=r.choice([4, 5]), clean=False, sei=300)
+        g.subscribe(c, f=["c"], qos=r.choice([1, 2]))
+        g.connect("é_1", v=4, clean=True)
+        g.publish("é_1", False, t=["c"], qos=1)
+        old = g.conn[c]
+        if r.random() < 0.5:
+            g.ops.append(_op("arm", k=old, point="teardown.cleanup"))
+            g.connect(c, clean=False, sei=300, kind="free")
+            g.ops.append(_op("release", k=old))
+        else:
+            g.connect(c, clean=False, sei=300)
+    elif pre < 0.4:       # a session that ends with its connection
+        g.connect("a:b", v=4, clean=True)
+        g.subscribe("a:b", f=["c"], qos=1)
+        g.drop("a:b")
+    elif pre < 0.55:      # the colliding pair
+        g.connect("a:b", v=4, clean=False)
+        g.subscribe("a:b", f=["c"], qos=1)
+        g.connect("a", v=4, clean=False)
+        g.subscribe("a", f=["b:c"], qos=1)
+    else:
+        conn(r.choice(["a", "a:b"]))
     while len(g.ops) < n:
         x = r.random()
         live = [c for c in ids if c in g.conn]
